@@ -66,6 +66,7 @@ def _pad_body(case, ctx):
         a = a + 1j * (a % 5)
     elif dt == "bool":
         a = (a % 3 != 0)
+    a = gen.relayout(a, case.get("layout", ["C", "F", "strided", "reversed", "transposed_view"][(n[0] + 2 * N[1] + depth) % 5]))
     a0 = a.copy()
     par = any((x % 2) != (y % 2) for x, y in zip(n, N))
     mixed = (N[0] - n[0]) * (N[1] - n[1]) < 0
@@ -131,7 +132,7 @@ def _enum_sub(tier):
       "complete table: arrays 1..6, sub-arrays 1..6, six shifts incl. out-of-range (quick: every 7th)")
 def subarray_enum(case, ctx):
     n, s, sh = tuple(case["n"]), tuple(case["s"]), tuple(case["shift"])
-    a = _vals(n)
+    a = gen.relayout(_vals(n), ["C", "F", "strided", "reversed"][(n[0] + s[1] + sh[0]) % 4])
     # expected by index sets: subarray sample floor(s/2)+k  <-  a sample floor(n/2)+shift+k
     rows = [i - s[0] // 2 + n[0] // 2 + sh[0] for i in range(s[0])]
     cols = [j - s[1] // 2 + n[1] // 2 + sh[1] for j in range(s[1])]
@@ -159,6 +160,7 @@ def mask_case(draw, tier):
     vals = draw(st.sampled_from(["binary", "weights"]))
     k = draw(st.integers(0, 2**31 - 1))
     return {"mask": m.astype(int), "vals": vals, "seed": k, "pad": [draw(st.integers(0, 3)), draw(st.integers(0, 3))],
+            "layout": draw(gen.layouts()),
             "threshold": draw(st.sampled_from([0, 0, 0.5]))}
 
 
@@ -172,13 +174,14 @@ def bounds(case, ctx):
     if case["vals"] == "weights":
         x = x * rng.uniform(0.6, 3.0, size=m.shape)
     thr = case["threshold"]
+    x = gen.relayout(x, case.get("layout"))
     sel = np.argwhere(x > thr)
     if len(sel) == 0:
         raise Skip("empty_after_threshold")
     want = (int(sel[:, 0].min()), int(sel[:, 0].max()), int(sel[:, 1].min()), int(sel[:, 1].max()))
     centred = (want[0] + (want[1] - want[0] + 1) // 2 == m.shape[0] // 2) and \
               (want[2] + (want[3] - want[2] + 1) // 2 == m.shape[1] // 2)
-    ctx.tag("offcentre" if not centred else "centred", gen.parity_tags("m", m.shape),
+    ctx.tag("layout:" + str(case.get("layout")), "offcentre" if not centred else "centred", gen.parity_tags("m", m.shape),
             "pad" if any(case["pad"]) else None)
     ctx.nontrivial_if(not centred)
     x0 = x.copy()
@@ -230,7 +233,7 @@ def rebin_case(draw, tier):
     depth = draw(st.sampled_from([0, 0, 1, 3]))
     shape = (nr * f, nc * f) if depth == 0 else (depth, nr * f, nc * f)
     return {"factor": f, "img": draw(gen.real_array(shape, -100, 100, dense_prob=0.8)),
-            "ints": draw(st.booleans())}
+            "ints": draw(st.booleans()), "layout": draw(gen.layouts())}
 
 
 @hyp("C20", "rebin", lambda tier: rebin_case(tier), "rebin vs explicit block sums (2-D and cubes)",
@@ -239,7 +242,8 @@ def rebin(case, ctx):
     f, img = case["factor"], case["img"]
     if case["ints"]:
         img = np.round(img).astype(int)
-    ctx.tag(f"factor:{f}", "cube" if img.ndim == 3 else "2d", "int" if case["ints"] else "float")
+    img = gen.relayout(img, case.get("layout"))
+    ctx.tag(f"factor:{f}", "cube" if img.ndim == 3 else "2d", "int" if case["ints"] else "float", "layout:" + str(case.get("layout")))
     ctx.nontrivial_if(f >= 2)
     with lentil_call("C20.rebin", "rebin"):
         out = lentil.rebin(img, f)
